@@ -40,14 +40,14 @@ C_DECOY = ['const char *s%d = "<block name=\\"decoy\\">";', 'const char *t%d = "
 LANGS = {
     "bash": dict(suffixes=["sh", "bash"], forms=[HASH], code=["x=1", "echo hi", "y=$((x + 1))"],
                  decoys=["s%d='<block name=\"decoy\">'", 'echo "</block>" # %d']),
-    "c": dict(suffixes=["c"], forms=[C_LINE, C_BLOCK, C_BLOCK_STAR], code=C_CODE, decoys=C_DECOY),
-    "cpp": dict(suffixes=["cc", "cpp", "h"], forms=[C_LINE, C_BLOCK, C_BLOCK_STAR], code=C_CODE, decoys=C_DECOY),
-    "c_sharp": dict(suffixes=["cs"], forms=[C_LINE, Form("doc-line", "line", "///"), C_BLOCK, C_BLOCK_STAR],
+    "c": dict(suffixes=["c"], forms=[C_LINE, C_BLOCK, C_BLOCK_STAR, C_DOC_BLOCK], code=C_CODE, decoys=C_DECOY),
+    "cpp": dict(suffixes=["cc", "cpp", "h"], forms=[C_LINE, C_BLOCK, C_BLOCK_STAR, C_DOC_BLOCK, Form("doc-line", "line", "///")], code=C_CODE, decoys=C_DECOY),
+    "c_sharp": dict(suffixes=["cs"], forms=[C_LINE, Form("doc-line", "line", "///"), C_BLOCK, C_BLOCK_STAR, C_DOC_BLOCK],
                     code=["int x = 1;", "var y = x + 2;"],
                     decoys=['string s%d = "<block name=decoy>";', 'string t%d = "</block>";']),
-    "css": dict(suffixes=["css"], forms=[C_BLOCK, C_BLOCK_STAR], code=["a { color: red; }", "p { margin: 0; }"],
+    "css": dict(suffixes=["css"], forms=[C_BLOCK, C_BLOCK_STAR, C_DOC_BLOCK], code=["a { color: red; }", "p { margin: 0; }"],
                 decoys=['a::before { content: "<block name=decoy%d>"; }', 'a::after { content: "</block>%d"; }']),
-    "go": dict(suffixes=["go"], forms=[C_LINE, C_BLOCK, C_BLOCK_STAR], prologue=["package main", ""],
+    "go": dict(suffixes=["go"], forms=[C_LINE, C_BLOCK, C_BLOCK_STAR, C_DOC_BLOCK], prologue=["package main", ""],
                code=["var x = 1", "var y = x + 2"],
                decoys=['var s%d = "<block name=decoy>"', "var t%d = `</block>`"]),
     "gomod": dict(suffixes=["go.mod", "go.sum", "go.work"], forms=[C_LINE], code=["module example.com/m", "go 1.22"],
@@ -76,7 +76,7 @@ LANGS = {
                      code=["Some paragraph text.", "# Heading", "- item one", "- item two"],
                      decoys=["Inline `<block name=decoy%d>` code and `</block>`.", "```\n<block name=\"decoy%d\">\n</block>\n```"],
                      indent=False),
-    "php": dict(suffixes=["php", "phtml"], forms=[C_LINE, HASH, C_BLOCK, C_BLOCK_STAR], prologue=["<?php"],
+    "php": dict(suffixes=["php", "phtml"], forms=[C_LINE, HASH, C_BLOCK, C_BLOCK_STAR, C_DOC_BLOCK], prologue=["<?php"],
                 code=["$x = 1;", "$y = $x + 2;"],
                 decoys=['$s%d = "<block name=decoy>";', "$t%d = '</block>';"]),
     "python": dict(suffixes=["py", "pyi"], forms=[HASH], code=["x = 1", "y = x + 2"], indent=False,
@@ -84,17 +84,22 @@ LANGS = {
     "ruby": dict(suffixes=["rb"], forms=[HASH], code=["x = 1", "y = x + 2"],
                  decoys=['s%d = "<block name=decoy>"', "t%d = '</block>'"]),
     "rust": dict(suffixes=["rs"],
-                 forms=[C_LINE, Form("doc-line", "line", "///", eats_newline=True), C_BLOCK, C_BLOCK_STAR, C_DOC_BLOCK],
+                 forms=[C_LINE, Form("doc-line", "line", "///", eats_newline=True), C_BLOCK, C_BLOCK_STAR, C_DOC_BLOCK,
+                        Form("inner-doc-line", "line", "//!", eats_newline=True), _c_block("inner-doc-block", "/*!", cont=" * "),
+                        # block comments nest in Rust: the tag sits after an inner, already closed comment
+                        _c_block("nested-block", "/* /* inner */")],
                  code=["let x = 1;", "let y = x + 2;"],
                  decoys=['let s%d = "<block name=decoy>";', 'let t%d = r#"</block>"#;']),
-    "sql": dict(suffixes=["sql"], forms=[Form("dash", "line", "--"), C_BLOCK, C_BLOCK_STAR],
+    "sql": dict(suffixes=["sql"], forms=[Form("dash", "line", "--"), C_BLOCK, C_BLOCK_STAR, C_DOC_BLOCK],
                 code=["SELECT 1;", "SELECT a FROM t;"],
                 decoys=["SELECT '<block name=decoy%d>';", "SELECT '</block>' AS c%d;"]),
-    "swift": dict(suffixes=["swift"], forms=[C_LINE, C_BLOCK, C_BLOCK_STAR], code=["let x = 1", "var y = x + 2"],
+    "swift": dict(suffixes=["swift"], forms=[C_LINE, C_BLOCK, C_BLOCK_STAR, Form("doc-line", "line", "///"), C_DOC_BLOCK,
+                                             _c_block("nested-block", "/* /* inner */")],
+                  code=["let x = 1", "var y = x + 2"],
                   decoys=['let s%d = "<block name=decoy>"', 'let t%d = "</block>"']),
     "toml": dict(suffixes=["toml"], forms=[HASH], code=["x = 1", 'y = "two"'],
                  decoys=['s%d = "<block name=decoy>"', "t%d = '</block>'"]),
-    "typescript": dict(suffixes=["ts", "d.ts"], forms=[C_LINE, C_BLOCK, C_BLOCK_STAR, C_DOC_BLOCK],
+    "typescript": dict(suffixes=["ts", "d.ts"], forms=[C_LINE, C_BLOCK, C_BLOCK_STAR, C_DOC_BLOCK, Form("triple-slash", "line", "///")],
                        code=["let x: number = 1;", "const y = x + 2;"],
                        decoys=['const s%d = "<block name=decoy>";', "const t%d = `</block>`;"]),
     "tsx": dict(suffixes=["tsx"], forms=[C_LINE, C_BLOCK, C_BLOCK_STAR],
